@@ -77,6 +77,10 @@ def mark(obj):
 
 def main():
     modname = sys.argv[1]
+    # the sanitizer runtime is loaded in this process by now; the compilers
+    # this process starts (run-time code generation) must not get it (a
+    # /bin/sh or g++ with libtsan preloaded dies)
+    os.environ.pop('LD_PRELOAD', None)
     out = os.fdopen(os.dup(1), 'wb')
     # anything the repository prints goes to stderr, not into the protocol
     os.dup2(2, 1)
